@@ -83,7 +83,8 @@ def laguerre_seq(ns, alpha, x):
     """
     ns = list(ns)
     min_i = 0
-    out = np.empty((len(ns), *x.shape), dtype=x.dtype)
+    # integer coordinates have floating point polynomials
+    out = np.empty((len(ns), *x.shape), dtype=np.result_type(x.dtype, np.float32))
 
     if ns[min_i] == 0:
         out[min_i] = 1
@@ -188,7 +189,7 @@ def laguerre_der_seq(ns, alpha, x):
     if ns[0] == 0:
         # L_0 is constant: its derivative is zero, and order n-k = -1 is not
         # part of the sequence laguerre_seq produces
-        out = np.zeros((len(ns), *x.shape), dtype=x.dtype)
+        out = np.zeros((len(ns), *x.shape), dtype=np.result_type(x.dtype, np.float32))
         if len(ns) > 1:
             out[1:] = laguerre_der_seq(ns[1:], alpha, x)
 
